@@ -496,7 +496,10 @@ def concrete_oracle(cs, w=None):
         if isinstance(a, M.FullCaseCitation):
             if a.groups["page"] is None or b.groups["page"] is None:
                 return False
-            return (a.groups.get("volume"), a.groups["page"], a.corrected_reporter()) == (b.groups.get("volume"), b.groups["page"], b.corrected_reporter())
+            # the normalised reporter as the property words it (edition short name, else the reporter as written),
+            # not through the method under test
+            nr = lambda c: c.edition_guess.short_name if c.edition_guess else c.groups["reporter"]
+            return (a.groups.get("volume"), a.groups["page"], nr(a)) == (b.groups.get("volume"), b.groups["page"], nr(b))
         if isinstance(a, M.FullJournalCitation) and (a.groups.get("page") is None or b.groups.get("page") is None):
             return False  # placeholder page: equal only to itself
         return dict(a.groups) == dict(b.groups) and sorted(map(repr, a.all_editions)) == sorted(map(repr, b.all_editions))
@@ -531,7 +534,7 @@ def concrete_oracle(cs, w=None):
             same = [j for j in earlier if same_doc(cs[j], c)]
             tgt = same[0] if same else i
         elif isinstance(c, M.ShortCaseCitation):
-            cand = [j for j in earlier if isinstance(cs[j], M.FullCaseCitation) and cs[j].corrected_reporter() == c.corrected_reporter() and cs[j].groups.get("volume") == c.groups.get("volume")]
+            cand = [j for j in earlier if isinstance(cs[j], M.FullCaseCitation) and (cs[j].edition_guess.short_name if cs[j].edition_guess else cs[j].groups["reporter"]) == (c.edition_guess.short_name if c.edition_guess else c.groups["reporter"]) and cs[j].groups.get("volume") == c.groups.get("volume")]
             cl = classes(cand)
             if len(cl) == 1:
                 tgt = cl[0]
